@@ -327,4 +327,19 @@ C18i_Cfgs == { [BaseCfg EXCEPT !.hmac = h, !.uvCap = u, !.upCap = p, !.disc = d]
                  d \in {"full", "nondisc", "forced"} }
 C18i_Cers == { << Cer("ctap2", "info", BaseReq, [BaseEnv EXCEPT !.cancelAt = k]) >> : k \in {-1, 0, 1} }
 
+-----------------------------------------------------------------------------
+(* C17: U2F histories over two applications and key handles of several lengths *)
+U2fReq(app, handle, ctr, presence) ==
+    BaseReq @@ [handle |-> handle, counter |-> ctr, presence |-> presence] 
+U2fR(app, handle, ctr, presence) == [U2fReq(app, handle, ctr, presence) EXCEPT !.rp = app]
+Handles == {"k0", "k1", "k32", "k255"}
+U2fReg(a, h) == Cer("u2f", "reg", U2fR(a, h, Ctr(0, 0), <<>>), BaseEnv)
+U2fAuth(a, h, c, p) == Cer("u2f", "auth", U2fR(a, h, c, p), BaseEnv)
+C17_Cfgs == { BaseCfg, [BaseCfg EXCEPT !.storeKind = "slot", !.disc = "forced"] }
+C17_Stores == { << <<>> >> }
+C17_Cers ==
+    { << U2fReg(a1, h1), U2fAuth(a2, h2, c, p), U2fReg(a2, h2), U2fAuth(a2, h2, c, p), U2fAuth(a1, h1, Ctr(0, 1), <<"UP">>) >> :
+        a1 \in {"a1"}, a2 \in {"a1", "a2"}, h1 \in Handles, h2 \in Handles,
+        c \in {Ctr(0, 0), Ctr(0, 1), Ctr(65535, 65535)}, p \in {<<>>, <<"UP">>, <<"UP", "UV">>} }
+
 =============================================================================
